@@ -59,7 +59,7 @@ RULE = (
     "x feature list (own / renamed / reordered / unicode) x design (random: patient_number 1-12, first-visit and follow-up mean/std, "
     "spacing mean > 0 with std 0 / <= mean / 3-20 x mean, dense sub-step spacing, min_spacing_between_visits absent or in "
     "{0, 5e-4, 1e-3, 1/365, 0.01, 0.05, 0.1, 0.5, 1, 1.5, 2}; or table-driven: 1-8 individuals x 1-8 visits, str/int/unicode ids, "
-    "grouped, unsorted or interleaved rows, ages closer than the rounding step, exact duplicates, integer ages, extra columns) "
+    "grouped, unsorted or interleaved rows, row labels of the table default / permuted / increasing with gaps / strings / repeated as after pd.concat, ages closer than the rounding step, exact duplicates, integer ages, extra columns) "
     "x seed (None or int) x reuse (about 1/4 of the valid cases call simulate twice with the same visit_parameters dict, or the "
     "same AlgorithmSettings object); invalid designs = one single-point corruption of a valid case per class (negative std, non-positive "
     "patient number, wrong types, unknown visit type, negative min spacing, non-positive spacing mean and std, missing TIME column, "
@@ -89,6 +89,7 @@ REQUIRED_CLASSES = {
     "nontrivial": 150, "reused-design-object": 300, "reuse:dict": 100, "reuse:settings": 100, "valid:random": 300, "valid:table": 200, "expect:refuse": 100,
     "random:std0": 40, "random:std>>mean": 40, "random:dedup-happened": 40, "random:backward-step": 20,
     "random:single-visit-individual": 20, "msp:below-1e-3": 30, "msp:absent": 30, "msp:>=1": 30,
+    "table:index-default": 40, "table:index-permuted": 40, "table:index-gaps": 40, "table:index-strings": 40, "table:index-duplicated": 40,
     "table:near-dup": 40, "table:exact-dup": 40, "table:ids-int": 30, "table:interleaved": 30, "table:unsorted": 30,
     "model:fitted": 20, "model:reloaded": 20, "model:hand": 200, "seed:none": 50, "features:renamed": 50, "features:reordered": 30,
     "random:extreme-first-visit": 30, "invalid:neg-std": 10, "invalid:nan-age": 5, "invalid:features-malformed": 10,
@@ -318,9 +319,35 @@ def table_design(sd: int, n_max: int = 8):
         rows = [r for g in groups for r in g]
         if order == "interleaved":
             rows = list(draw(st.permutations(rows)))
+        # row labels of the caller's table: a table cut out of a real data set rarely has the default 0..n-1 index
+        nr = len(rows)
+        shape = draw(st.sampled_from(["default", "default", "permuted", "gaps", "strings", "duplicated"]))
+        if shape == "permuted" and nr < 2:
+            shape = "gaps"
+        if shape == "duplicated" and nr < 2:
+            shape = "strings"
+        index = None
+        if shape == "permuted":  # df.sample(frac=1) / sort_values without reset_index
+            index = list(draw(st.permutations(list(range(nr)))))
+            if index == list(range(nr)):
+                index = index[1:] + index[:1]
+        elif shape == "gaps":  # df[mask] / df.iloc[k:] : increasing labels, some of them outside 0..n-1
+            lab = draw(st.integers(0, 6))
+            steps = [draw(st.integers(1, 3)) for _ in range(nr - 1)]
+            if lab == 0 and all(x == 1 for x in steps):
+                lab = nr  # keep it different from the default index by construction
+            index = [lab]
+            for x in steps:
+                index.append(index[-1] + x)
+        elif shape == "strings":
+            pre = draw(st.sampled_from(["r", "visit-", "é"]))
+            index = [f"{pre}{j}" for j in range(nr)]
+        elif shape == "duplicated":  # pd.concat of two tables that each kept their own 0.. labels
+            cut = draw(st.integers(1, nr - 1))
+            index = list(range(cut)) + list(range(nr - cut))
         d = dict(visit_type="dataframe", id_kind=id_kind, columns=["ID", "TIME"], rows=rows, df_as="frame",
-                 extra_col=draw(st.integers(0, 5)) == 0)
-        return d, excluded, dict(order=order, int_time=int_time)
+                 extra_col=draw(st.integers(0, 5)) == 0, index=index)
+        return d, excluded, dict(order=order, int_time=int_time, index=shape)
 
     return _d()
 
@@ -538,7 +565,7 @@ def build_visit_parameters(design):
         return None
     if design.get("visit_type") != "dataframe" or "rows" not in design:
         return {k: copy.deepcopy(v) for k, v in design.items()}
-    vp = {k: v for k, v in design.items() if k not in ("id_kind", "columns", "rows", "df_as", "extra_col")}
+    vp = {k: v for k, v in design.items() if k not in ("id_kind", "columns", "rows", "df_as", "extra_col", "index")}
     rows = [[r[0], float("nan") if r[1] is None else r[1]] for r in design["rows"]]
     if design.get("df_as") == "absent":
         return vp
@@ -546,6 +573,8 @@ def build_visit_parameters(design):
         vp["df_visits"] = rows
         return vp
     df = pd.DataFrame({"ID": [r[0] for r in rows], "TIME": [r[1] for r in rows]})
+    if design.get("index") is not None:
+        df.index = list(design["index"])
     if design.get("extra_col"):
         df["f0"] = [0.25] * len(df)
     cols = design.get("columns", ["ID", "TIME"])
@@ -927,7 +956,20 @@ def design_classes(case):
             out.append("table:int-ages")
         if d.get("extra_col"):
             out.append("table:extra-column")
+        out.append("table:index-" + index_shape(d.get("index"), len(rows)))
     return out
+
+
+def index_shape(index, n) -> str:
+    if index is None or list(index) == list(range(n)):
+        return "default"
+    if any(isinstance(x, str) for x in index):
+        return "strings"
+    if len(set(index)) < len(index):
+        return "duplicated"
+    if sorted(index) == list(range(n)):
+        return "permuted"
+    return "gaps"
 
 
 def brief(case):
@@ -936,7 +978,7 @@ def brief(case):
     out = dict(model=dict(src=m["src"], dim=m["dim"], sd=m["sd"], noise=m["noise"], reload=m.get("reload", False)),
                features=case["features"], seed=case["seed"], expect=case["expect"])
     if isinstance(d, dict) and "rows" in d:
-        out["design"] = dict(visit_type=d.get("visit_type"), n_rows=len(d["rows"]), rows_head=d["rows"][:6])
+        out["design"] = dict(visit_type=d.get("visit_type"), n_rows=len(d["rows"]), rows_head=d["rows"][:6], index_head=(d.get("index") or [])[:6])
     else:
         out["design"] = d
     if "invalid_kind" in case:
@@ -1009,7 +1051,8 @@ def _case(model, design, features=None, seed=0, expect="complete", **kw):
 
 def grid_bases():
     return [_case(_m(3, 2), _RANDOM, seed=0, reuse="dict"), _case(_m(2, 1), _RANDOM, seed=None, reuse="settings"),
-            _case(_m(3, 2), _TABLE, seed=7, reuse="settings"), _case(_m(2, 1), _TABLE, seed=None, reuse="dict")]
+            _case(_m(3, 2), dict(_TABLE, index=[3, 0, 4, 1, 2]), seed=7, reuse="settings"),
+            _case(_m(2, 1), dict(_TABLE, index=[0, 1, 2, 0, 1]), seed=None, reuse="dict")]
 
 
 def shard_invalid_grid(shard: int = 0):
